@@ -177,13 +177,23 @@ def findCut (c : Ctx) (r : Running) (obs : Item) (maxActs : Nat) : Option (Optio
   let tryOne (ki : List Td × Insts) (cut : Option Nat) : Option (Option Nat × (List Td × Insts) × TaskOut) :=
     let out := runTask c.P ki.2 r.worker r.tid r.run r.reason ki.1 cut
     if listPrefix (consumed ++ [obs]) out.items then some (cut, ki, out) else none
-  -- first: another value of the setup task's teardown list (read while the setup task was still running)
-  match r.altKept.findSome? (fun k => tryOne k r.cut) with
-  | some x => some x
-  | none =>
-    if r.cut.isSome then none else
-    ((r.kept, r.instsAtStart) :: r.altKept).findSome? (fun kept =>
-      (List.range (maxActs + 1)).findSome? (fun k => tryOne kept (some k)))
+  let kis := (r.kept, r.instsAtStart) :: r.altKept
+  let cuts : List (Option Nat) := match r.cut with
+    | some k => [some k]
+    | none => none :: (List.range (maxActs + 1)).map some
+  cuts.findSome? (fun cut => kis.findSome? (fun ki => tryOne ki cut))
+
+/-- at `finish`: the task ended although the model expected more — explain it by the interrupt (same search,
+    the recomputed output must be exactly what was consumed) -/
+def findExact (c : Ctx) (r : Running) (maxActs : Nat) : Option (Option Nat × (List Td × Insts) × TaskOut) :=
+  let consumed := r.consumed.reverse
+  let kis := (r.kept, r.instsAtStart) :: r.altKept
+  let cuts : List (Option Nat) := match r.cut with
+    | some k => [some k]
+    | none => none :: (List.range (maxActs + 1)).map some
+  cuts.findSome? (fun cut => kis.findSome? (fun ki =>
+    let out := runTask c.P ki.2 r.worker r.tid r.run r.reason ki.1 cut
+    if out.items.map normItem == consumed.map normItem then some (cut, ki, out) else none))
 
 inductive Verdict
   | ok (g : G)
@@ -212,18 +222,18 @@ def acceptItem (c : Ctx) (g : G) (th : Nat) (mk : Nat → Item) : Verdict :=
     | e :: _ =>
       if itemMatches e obs then advance r
       else if g.defF.interrupted then
-        match findCut c r obs 400 with
+        match findCut c r obs 80 with
         | some (k, kept, out) =>
-          let r' := { r with cut := k, kept := kept.1, instsAtStart := kept.2, altKept := [], out := out,
+          let r' := { r with cut := k, kept := kept.1, instsAtStart := kept.2, out := out,
                              expected := out.items.drop r.consumed.length }
           advance r'
         | none => advance r
       else advance r
     | [] =>
       if g.defF.interrupted then
-        match findCut c r obs 400 with
+        match findCut c r obs 80 with
         | some (k, kept, out) =>
-          let r' := { r with cut := k, kept := kept.1, instsAtStart := kept.2, altKept := [], out := out,
+          let r' := { r with cut := k, kept := kept.1, instsAtStart := kept.2, out := out,
                              expected := out.items.drop r.consumed.length }
           advance r'
         | none => advance r
@@ -325,7 +335,13 @@ def step (c : Ctx) (g : G) : Rec → Verdict
   | .finish t r =>
     match g.running.find? (fun x => x.task == t) with
     | none => .reject s!"finish {t}: task not running"
-    | some ru =>
+    | some ru0 =>
+      let ru : Running :=
+        if !ru0.expected.isEmpty && g.defF.interrupted then
+          match findExact c ru0 80 with
+          | some (k, ki, out) => { ru0 with cut := k, kept := ki.1, instsAtStart := ki.2, out := out, expected := [] }
+          | none => ru0
+        else ru0
       if !ru.expected.isEmpty then
         .reject s!"finish {t}: task finished but the model still expects {describeItem (ru.expected.headD default)}"
       else
